@@ -7,6 +7,9 @@
    the account locks (DefaultLocker.Lock, parked at "lock.enqueued"): [AResumeCancelled t] is the ctx.Done()
    branch of that select (when the intent has been granted AND the context is done the Go runtime may take
    either branch: both [AResume t] and [AResumeCancelled t] are enabled).
+   [AResumeReadFail t]: the region thread t runs next performs a store read, and that read fails with a transient
+   error (not a not-found error): what the code does then, up to the return of the API call, is ONE transition
+   (the yield point that follows a failed read decides nothing and holds nothing new: see [resume_read_fail]).
    The store answers every read from the persisted log (as the SQL projection is specified to, C04).
    Requests are posting-mode transactions over one asset (general scripts reduce to them by C01/C09),
    reverts, and metadata writes. Models the tree WITH the engine repairs. Definitions only. *)
@@ -50,7 +53,9 @@ Record entry := {
 
 Inductive eclass := EIkBusy | EConflict | ENotFound | EAlreadyReverted | ERevertOccurring | EInsufficient
                   | ENoPostings | EKindMismatch
-                  | ELockCancelled.   (* the request's context was done while it waited for its account locks *)
+                  | ELockCancelled    (* the request's context was done while it waited for its account locks *)
+                  | EStoreRead        (* a store read of the write path failed (transient error, not "not found") *)
+                  | ECompilationFailed. (* exec's ErrCompilationFailed; here: ResolveResources could not read account metadata *)
 Inductive response := ROk (txid : option nat) | RErr (e : eclass) | RCrashed.
 
 Inductive pc :=
@@ -499,6 +504,69 @@ Definition resume_cancelled (s : state) (t : tid) : option state :=
       end
   end.
 
+(* ---- transient failures of the store reads of the write path ----------------------------------------------- *)
+(* Machine.ResolveBalances reads the balance of every bounded non-world source (NeededBalances; world is answered
+   without a read, a source with unbounded overdraft needs none) *)
+Definition needs_balance (th : thread) : bool :=
+  negb (t_unb th) && existsb (fun p => negb (N.eqb (fst (fst p)) world)) (t_postings th).
+
+(* thread [t] is parked before a region that reads the store, and the (first) read of that region fails.
+   - "revert.taken": GetTransaction fails: RevertTransaction returns the error; its deferred function releases the
+     revert reservation (nothing else is held yet).
+   - "ik.taken": ReadLogWithIdempotencyKey fails: run returns the error; deferred: the key is released; the completions
+     are empty; for a revert, RevertTransaction then releases its reservation. The reference has not been taken.
+   - "ref.taken": GetTransactionByReference fails: exec's executor returns the error; run releases the key, complete()
+     releases the reference (registered), then the revert reservation.
+   - "ik.lookup" (miss) of a metadata write on a TRANSACTION: GetTransaction fails. DeleteMetadata answers its
+     transaction-not-found error for ANY error (nothing written). SaveMeta only looks for the not-found error and
+     IGNORES any other: it goes on and writes the metadata entry although the transaction could not be read
+     (modelled as the code is: the request proceeds exactly as if the transaction had been found).
+   - "ik.lookup" (miss, no reference) / "ref.lookup" (miss) of a create: the script is compiled and ResolveResources
+     reads the metadata of accounts named through meta(): a failure is answered ErrCompilationFailed; key and
+     reference are released. (The model does not know which scripts read metadata: enabled for every create; the
+     trace validation only offers it for the requests whose script does, [ec_meta_readers].)
+   - "locked": ResolveBalances fails on its first GetBalance: exec returns the error; run releases the key, complete()
+     runs the unlock completion (release + FIFO re-check of the queue) and releases the reference; then the revert
+     reservation. The yield point "unlocked" inside the completion decides nothing: one transition.
+   Nothing is built, handed to the batcher or published in any of the failing cases. *)
+Definition resume_read_fail (s : state) (t : tid) : option state :=
+  match get_thread (threads s) t with
+  | None => None
+  | Some th =>
+      if negb (Nat.eqb (t_gen th) (gen s)) then None else
+      let u := of_state s in
+      let rq := t_req th in
+      let ok (u' : upd) := Some (to_state (gen s) u') in
+      match t_pc th with
+      | PRevTaken => ok (finish t th (RErr EStoreRead) false false false true u)
+      | PIkTaken => ok (finish t th (RErr EStoreRead) false true false true u)
+      | PRefTaken => ok (finish t th (RErr EStoreRead) false true true true u)
+      | PIkLookup None =>
+          match rq_kind rq with
+          | KCreate => if N.eqb (rq_ref rq) 0 then ok (finish t th (RErr ECompilationFailed) false true false true u) else None
+          | KRevert => None
+          | KSaveMeta =>
+              match rq_target_tx rq with
+              | Some _ => ok (set_th t (with_pc th (if rq_dry rq then PWait else PAppendEnter)) u)
+              | None => None
+              end
+          | KDelMeta =>
+              match rq_target_tx rq with
+              | Some _ => ok (finish t th (RErr ENotFound) false true false false u)
+              | None => None
+              end
+          end
+      | PRefLookup false =>
+          match rq_kind rq with
+          | KCreate => ok (finish t th (RErr ECompilationFailed) false true true true u)
+          | _ => None
+          end
+      | PLocked =>
+          if needs_balance th then ok (finish t th (RErr EStoreRead) false true true true (unlock t u)) else None
+      | _ => None
+      end
+  end.
+
 Definition start (s : state) (t : tid) (rq : request) : option state :=
   match get_thread (threads s) t with
   | Some _ => None
@@ -548,7 +616,7 @@ Definition crash (s : state) : state :=
      published := published s |}.
 
 Inductive action := AStart (t : tid) (rq : request) | AResume (t : tid) | APersistOk | APersistFail | ACrash
-                  | ACancel (t : tid) | AResumeCancelled (t : tid).
+                  | ACancel (t : tid) | AResumeCancelled (t : tid) | AResumeReadFail (t : tid).
 
 Definition step (s : state) (a : action) : option state :=
   match a with
@@ -559,6 +627,7 @@ Definition step (s : state) (a : action) : option state :=
   | ACrash => Some (crash s)
   | ACancel t => cancel s t
   | AResumeCancelled t => resume_cancelled s t
+  | AResumeReadFail t => resume_read_fail s t
   end.
 
 Fixpoint run (s : state) (acts : list action) : option state :=
